@@ -691,7 +691,7 @@ def model_side(ctx, lines, checks):
 
 def run(ctx):
     rng = ctx.rng
-    mult = ctx.budget(1, 25)
+    mult = ctx.budget(1, 80)
     cases = corpus_cases() + malformed_cases()
     for _ in range(4000 * mult):
         cases.append(gen_sep(ctx, rng))
